@@ -133,7 +133,61 @@ def main(path):
     return 0
 
 
+def probes(prop, outdir, only=None):
+    """bounded stand-in: run the contracts' listed boundary inputs (`probes`) on the NATIVE code with the
+    contracts' concrete clauses.  Prints one line per failing probe; exit 1 if any fails."""
+    import re
+    repo = os.environ.get('PYVC_REPO', '/repo')
+    if repo != '/repo':
+        sys.path.insert(0, repo)
+    from pyvc.contract import REGISTRY, G, Reject
+    from pyvc import run as _run
+    _run.load_contracts()
+    import importlib
+    n_run = n_fail = 0
+    for name in _run.contracts_for(prop):
+        if only and not re.search(only, name):
+            continue
+        c = REGISTRY[name]()
+        plist = c.probes() if callable(getattr(c, 'probes', None)) else (getattr(c, 'probes', None) or [])
+        if not plist:
+            continue
+        fn = None
+        if c.target:
+            modname, qual = c.target.split(':')
+            obj = importlib.import_module(modname)
+            for q in qual.split('.'):
+                obj = getattr(obj, q)
+            fn = obj
+        for k, env in enumerate(plist):
+            n_run += 1
+            g = G('concrete', env=dict(env), tol=c.tol)
+            fails = []
+            try:
+                args, kwargs = c.setup(g)
+                res = c.run(g, fn, args, kwargs)
+                c.post(g, res, args, kwargs)
+                fails = g.failures
+            except Reject:
+                continue
+            except Exception as e:
+                if not isinstance(e, tuple(c.expect_raises)):
+                    fails = [('native code raised %s' % type(e).__name__, str(e)[:200])]
+            if fails:
+                n_fail += 1
+                os.makedirs(outdir, exist_ok=True)
+                path = os.path.join(outdir, '%s_probe%d.json' % (name, k))
+                json.dump(dict(property=prop, contract=name, obligation=fails[0][0], witness=env, repo=repo,
+                               backend='bounded native probe', native_replay=dict(confirmed=True, output=str(fails[:4]))),
+                          open(path, 'w'), indent=1, default=str)
+                print('PROBE-FAIL %s %s :: %s -- %s' % (name, path, fails[0][0], fails[0][1][:160]))
+    print('probes: %d run, %d failed' % (n_run, n_fail))
+    return 1 if n_fail else 0
+
+
 if __name__ == '__main__':
+    if sys.argv[1] == '--probes':
+        sys.exit(probes(sys.argv[2], sys.argv[3], sys.argv[4] if len(sys.argv) > 4 else None))
     if sys.argv[1] == '--search':
         sys.exit(search(sys.argv[3], int(sys.argv[2])))
     sys.exit(main(sys.argv[1]))
